@@ -17,7 +17,7 @@
    No theorem assumes one token per host or the absence of a panic any more: the two defects that made those
    hypotheses necessary (known findings nts-duplicate-replica and nts-unknown-dc-panic) are repaired in
    topology.go; C10/Refuted.v keeps the old behaviour as regression facts about the pre-fix model. *)
-From GocqlV Require Import Lib.Base C10.Model C10.Spec C10.Proofs1 C10.Proofs2 C10.Proofs3 C10.Proofs4 C10.Proofs5 C10.Proofs6.
+From GocqlV Require Import Lib.Base C10.Model C10.Spec C10.Proofs1 C10.Proofs2 C10.Proofs3 C10.Proofs4 C10.Proofs5 C10.Proofs6 C10.Proofs7.
 From Coq Require Import Sorting.Permutation Sorting.Sorted.
 Open Scope Z_scope.
 
@@ -34,6 +34,41 @@ Theorem C10_new_token_ring : forall (T : Type) (ltb : T -> T -> bool) (hs : list
   sorted_toks ltb (new_token_ring ltb hs) /\ Permutation (new_token_ring ltb hs) (flatten_hosts hs).
 Proof. intros T ltb hs O. exact (new_token_ring_sorted_perm ltb O hs). Qed.
 Print Assumptions C10_new_token_ring.
+
+(* When no token is owned by two hosts (Cassandra never lets two nodes own one token) the ring has exactly one
+   sorted arrangement: whatever order Go's unstable sort.Sort leaves equal elements in, newTokenRing's result is
+   the model's.  With a token on two hosts the arrangement of the tie is the sort's choice; every theorem below
+   holds for ANY sorted arrangement (they assume [sorted_toks], which allows equal neighbours), and the
+   correspondence check places on the arrangement the code produced. *)
+Theorem C10_sorted_ring_unique : forall (T : Type) (ltb : T -> T -> bool) (l1 l2 : list (T * Z)),
+  strict_total ltb -> sorted_toks ltb l1 -> sorted_toks ltb l2 -> Permutation l1 l2 -> NoDup (map fst l1) -> l1 = l2.
+Proof. intros T ltb l1 l2 O. exact (sorted_perm_unique ltb O l1 l2). Qed.
+Print Assumptions C10_sorted_ring_unique.
+
+(* ParseString of the Murmur3 partitioner reads every decimal numeral Cassandra can print for a token - any number
+   of digits, leading zeros, optional sign - as the long it denotes; a numeral that does not fit a long reads as
+   the nearest long. *)
+Theorem C10_parse_murmur_decimal : forall ds, ds <> [] -> Forall is_dec_digit ds ->
+  parse_murmur_token ds = clamp64 (dec_value ds)
+  /\ parse_murmur_token (43 :: ds) = clamp64 (dec_value ds)
+  /\ parse_murmur_token (45 :: ds) = clamp64 (- dec_value ds).
+Proof. exact parse_murmur_decimal. Qed.
+Print Assumptions C10_parse_murmur_decimal.
+
+(* ParseString of the Random partitioner reads exactly the decimal numerals, as the integer they denote. *)
+Theorem C10_parse_random_decimal : forall s,
+  (forall ds, ds <> [] -> Forall is_dec_digit ds ->
+     parse_random_token ds = Some (dec_value ds) /\ parse_random_token (43 :: ds) = Some (dec_value ds)
+     /\ parse_random_token (45 :: ds) = Some (- dec_value ds))
+  /\ (forall v, parse_random_token s = Some v ->
+       exists ds, ds <> [] /\ Forall is_dec_digit ds /\ (s = ds \/ s = 43 :: ds \/ s = 45 :: ds)).
+Proof. intros s. split; [exact parse_random_decimal|intros v; exact (parse_random_only_decimal s v)]. Qed.
+Print Assumptions C10_parse_random_decimal.
+
+(* Ordered-partitioner tokens are the raw bytes, and their Less is the unsigned lexicographic order. *)
+Theorem C10_ordered_less_lexicographic : forall a b, str_ltb a b = true <-> bytes_lt a b.
+Proof. exact str_ltb_bytes_lt. Qed.
+Print Assumptions C10_ordered_less_lexicographic.
 
 (* sort.Search with the predicate of GetHostForToken / replicasFor returns the number of entries whose token is
    below t, and those entries are exactly the prefix of the list: the entry found is the first with token >= t. *)
@@ -194,6 +229,13 @@ Module NonVacuous.
                         [(0, 0); (10, 0); (20, 1); (30, 2); (40, 1); (50, 2)]
        = Ok [(0, [0; 1]); (10, [0; 1]); (20, [1; 2]); (30, [2; 1]); (40, [1; 2]); (50, [2; 1])].
   Proof. split; vm_compute; reflexivity. Qed.
+
+  Example parse_examples :
+    parse_murmur_token [45; 57; 50; 50; 51; 51; 55; 50; 48; 51; 54; 56; 53; 52; 55; 55; 53; 56; 48; 56] = - 2 ^ 63
+    /\ parse_murmur_token [57; 57; 57; 57; 57; 57; 57; 57; 57; 57; 57; 57; 57; 57; 57; 57; 57; 57; 57; 57; 57; 57] = 2 ^ 63 - 1
+    /\ parse_murmur_token [48; 48; 55] = 7
+    /\ parse_random_token [49; 55; 48; 49; 52; 49; 49; 56; 51; 52; 54; 48; 52; 54; 57; 50; 51; 49; 55; 51; 49; 54; 56; 55; 51; 48; 51; 55; 49; 53; 56; 56; 52; 49; 48; 53; 55; 50; 56] = Some (2 ^ 127).
+  Proof. repeat split; vm_compute; reflexivity. Qed.
 
   (* SimpleStrategy with two tokens per host *)
   Example simple_vnodes :
